@@ -224,3 +224,44 @@ Print Assumptions C15_history_stream64_eq.
 Print Assumptions C15_history_refill4_wraps.
 Print Assumptions C15_history_nonce12.
 Print Assumptions C15_history_example.
+
+(** audit C15-F1 (work package audit-leftovers, Proofs/LeftoversGuts.v): the EXACT behaviour of the index
+    computation of guts.rs ([(param << 1)] on u32, [set_stream_param_u32] / [get_stream_param_u32] of
+    Proofs/ChaChaGutsParams.v, [None] = index-out-of-bounds panic) on the whole u32 range.  The shift
+    drops the top bit: the functions only see [param mod 2^31]; 2^31 and 2^31 + 1 behave as parameters
+    0 and 1 (no panic); every other value in [2, 2^32) panics.  ([set_stream_param]/[get_stream_param]
+    of Model/ChaChaGuts.v return [None] for every parameter >= 2, i.e. they are exact on
+    [0, 2^31) and coarser only at the two aliases, which are outside the property.) *)
+From CC Require Proofs.LeftoversGuts.
+
+Theorem C15_param_u32_exact :
+  forall s p v,
+    set_stream_param_u32 s p v = set_stream_param s (p mod 2 ^ 31) v /\
+    get_stream_param_u32 s p = get_stream_param s (p mod 2 ^ 31).
+Proof. exact LeftoversGuts.param_u32_exact. Qed.
+
+Theorem C15_param_u32_alias :
+  forall s p v,
+    p = 2 ^ 31 \/ p = 2 ^ 31 + 1 ->
+    set_stream_param_u32 s p v = set_stream_param s (p - 2 ^ 31) v /\
+    get_stream_param_u32 s p = get_stream_param s (p - 2 ^ 31) /\
+    p - 2 ^ 31 < 2.
+Proof. exact LeftoversGuts.param_u32_alias_exact. Qed.
+
+Theorem C15_param_u32_panics :
+  forall s p v,
+    2 <= p -> p < 2 ^ 32 -> p <> 2 ^ 31 -> p <> 2 ^ 31 + 1 ->
+    set_stream_param_u32 s p v = None /\ get_stream_param_u32 s p = None.
+Proof. exact LeftoversGuts.param_u32_panics. Qed.
+
+Theorem C15_param_u32_defined_iff :
+  forall s p v,
+    p < 2 ^ 32 ->
+    (set_stream_param_u32 s p v <> None <-> (p = 0 \/ p = 1 \/ p = 2 ^ 31 \/ p = 2 ^ 31 + 1)) /\
+    (get_stream_param_u32 s p <> None <-> (p = 0 \/ p = 1 \/ p = 2 ^ 31 \/ p = 2 ^ 31 + 1)).
+Proof. exact LeftoversGuts.param_u32_defined_iff. Qed.
+
+Print Assumptions C15_param_u32_exact.
+Print Assumptions C15_param_u32_alias.
+Print Assumptions C15_param_u32_panics.
+Print Assumptions C15_param_u32_defined_iff.
